@@ -64,10 +64,14 @@ def stf_vonKarman(r, L0):
         L0 is in unit of telescope diameter, typically a few (3; or 20m)
     '''
     r0 = 1
+    r = np.asarray(r, dtype=float)
+    # at zero separation x^(5/6) K_5/6(2 pi x) is 0 * inf; its limit there makes the bracket vanish: D(0) = 0
+    with np.errstate(invalid="ignore"):
+        bessel_term = (2 * np.pi ** (5. / 6.) * ((r) / L0) ** (5. / 6.)
+                       / scipy.special.gamma(5. / 6.)
+                       * scipy.special.kv(5. / 6., (2 * np.pi * r) / L0))
     D_vk = (0.17253 * (L0 / (r0)) ** (5. / 3.)
-            * (1 - 2 * np.pi ** (5. / 6.) * ((r) / L0) ** (5. / 6.)
-               / scipy.special.gamma(5. / 6.)
-               * scipy.special.kv(5. / 6., (2 * np.pi * r) / L0)))
+            * np.where(r == 0, 0., 1 - bessel_term))
     return D_vk
 
 
